@@ -184,6 +184,10 @@ def check_cli(ctx, plain, rng, scratch):
     qc = ["--qc-overlaps"] if rng.random() < 0.4 else []  # its report belongs on stderr: stdout stays the assembly text
     if qc:
         ctx.count("cli:with-qc-overlaps")
+        # make sure there is something to report: one contig placed twice, overlapping
+        plain = {"header": plain["header"], "scaffolds": [*plain["scaffolds"], ["ovl_sc", [["F", "ovl_ctg", 1, 10, 1, []], ["F", "ovl_ctg", 5, 20, 1, []]]]]}
+        agp = agp_ref.format(plain)
+        tpf = tpf_ref.format(plain)
     if mode == "agp2tpf":
         (d / "a.agp").write_text(agp)
         r = cli_runs.run_asm_format([d / "a.agp", "-f", "TPF", *qc])
